@@ -193,6 +193,34 @@ CHECKS.update(
     ),
 )
 
+CHECKS.update(
+    C12=dict(
+        category="other",
+        text="The real query functions (query_terminal, the byte-wise read_tty loop, get_fg_bg_colors, get_terminal_name_version, "
+        "get_cell_size, x_parse_color, the is_supported() rules and auto_image_class) run against a pty/terminal model: which queries "
+        "are answered, the arrival delays (integer ticks whose sum is below the timeout), the colour components (symbolic hex digits, "
+        "1-4 per component), ST vs BEL, cell-size reply digits, ioctl pixel size and win-size swap are z3 variables / forked selectors; "
+        "terminal identities and versions are enumerated around the documented thresholds. Reported values, support flags, style "
+        "preference, 'no reply byte left unread', bounded waiting and fallbacks are unsat queries per path.",
+        note="Trusted: the pty model harness/pty_model.py (replies are units, in order; time advances only in select()), the symbolic "
+        "regex matcher, z3, engine. Replies split in the middle of a unit and real pty timing are outside the claim.",
+        design="3 C12",
+        technique=TECH_S + "; pty model with symbolic arrival instants and symbolic reply characters",
+    ),
+    C13=dict(
+        category="fault_enumeration",
+        text="query_terminal, read_tty (all timeout/min/echo modes, raising predicate), get_fg_bg_colors and Renderable.draw (echo "
+        "suppression, still and animated) run against the termios model with a fully symbolic initial attribute vector. A z3 integer "
+        "selects the system call (tcgetattr, tcsetattr, write, tcdrain, select, read, stream write/flush, frame render) at which "
+        "KeyboardInterrupt or OSError is raised, before or after the call took effect: the engine forks at every call, so every fault "
+        "position is covered. On every path out of the operation the attribute vector must equal the initial one component-wise.",
+        note="Trusted: termios/pty model, z3, engine. Faults 'before the effect' of the restoring tcsetattr itself are excluded (no Python "
+        "code can survive a signal inside its own final clean-up call).",
+        design="3 C13",
+        technique=TECH_S + "; solver-owned fault index over system-call boundaries",
+    ),
+)
+
 PENDING = {}
 
 
